@@ -100,7 +100,7 @@ func drawC16(src *vs.Src) *c16Params {
 			switch src.Intn(8) {
 			case 0:
 				p.Deliver = append(p.Deliver, -(src.Intn(p.N) + 1))
-				p.ForgeHow = append(p.ForgeHow, src.Intn(10))
+				p.ForgeHow = append(p.ForgeHow, src.Intn(11)) // 10: one of the receiver's OWN records, sent back to it
 			default:
 				// mostly increasing with local disorder and repeats
 				k := i * p.N / m
@@ -177,14 +177,20 @@ func (c16) Run(c *Case, src *vs.Src) *Result {
 	}
 	// hold back the sender's application datagrams
 	holding := false
-	var held []*simnet.Dgram
+	var held, heldOwn []*simnet.Dgram
 	pair.Net.Hook = func(d *simnet.Dgram) []*simnet.Dgram {
 		if holding && d.Dir == sendDir {
 			held = append(held, d)
 			return []*simnet.Dgram{}
 		}
+		if holding {
+			// what the receiver itself sends is kept (and never delivered): material for reflection
+			heldOwn = append(heldOwn, d)
+			return []*simnet.Dgram{}
+		}
 		return nil
 	}
+	ownSent := false
 	var sErr, rErr error
 	var got [][]byte
 	var endErr error
@@ -210,7 +216,7 @@ func (c16) Run(c *Case, src *vs.Src) *Result {
 		sentAll = true
 	})
 	w.Go("network", func() {
-		vs.Block(func() bool { return sentAll }, time.Time{})
+		vs.Block(func() bool { return sentAll && ownSent }, time.Time{})
 		fi := 0
 		glued := map[int]bool{}
 		for k, d := range p.Deliver {
@@ -231,6 +237,9 @@ func (c16) Run(c *Case, src *vs.Src) *Result {
 				}
 				fi++
 				data = c16Forge(held[i].Data, how, k)
+				if how == 10 && len(heldOwn) > 0 {
+					data = heldOwn[k%len(heldOwn)].Data
+				}
 			}
 			if p.Glue && d < 0 && how <= 4 && k+1 < len(p.Deliver) && p.Deliver[k+1] >= 0 && p.Deliver[k+1] < len(held) {
 				// this forgery and the next (genuine) record share a datagram; the genuine one is not sent again
@@ -249,6 +258,14 @@ func (c16) Run(c *Case, src *vs.Src) *Result {
 			return
 		}
 		handshook++
+		// three records of its own (held back by the network), so that there is something to reflect
+		vs.Block(func() bool { return holding }, time.Time{})
+		for j := 0; j < 3; j++ {
+			own := c16Payload(1000 + j)
+			binary.BigEndian.PutUint32(own, 0xC16C16C2)
+			receiver.WriteTo(own, receiver.RemoteAddr())
+		}
+		ownSent = true
 		vs.Block(func() bool { return injected }, time.Time{})
 		buf := make([]byte, 2048)
 		var stream []byte // what the small Reads returned, in order
